@@ -404,6 +404,10 @@ func init() {
 }
 
 func init() {
+	properties["C13"].Units = append(properties["C13"].Units, Unit{Name: "json-files-vs-yaml-files", Harness: "pkg/generator:HarnessC13Files", Layer: "L3", Only: "C13.",
+		Desc:   "the same two schemas (a root with bounds, a two-element type list, a mixed enum with null, a $ref written without extension that --resolve-extension probing resolves, an allOf branch on the same file) as JSON files and as YAML files on the virtual file system, loaded through the default loaders (extension-based parser choice, FromYAMLFile -> goccy decode -> FixMapKeys -> json.Marshal -> the JSON parser): both spellings generate, and generate byte-identical code",
+		Bounds: "one concrete pair of schema sets; goccy/go-yaml itself is a library (its real decoder runs on the concrete bytes, nothing of it is interpreted); YAML-only features (anchors, tags, non-string keys) are outside",
+		Panic:  "inconclusive"})
 	for _, id := range []string{"C01", "C02", "C03", "C04", "C05", "C08", "C13"} {
 		p := properties[id]
 		p.Units = append(p.Units, parsedUnit(id+"."))
